@@ -56,7 +56,8 @@ Proof. exact s_dec_enc. Qed.
 Print Assumptions C57_observer_packing.
 
 (* ---- concrete runs of the observer (non-vacuity; what it accepts and what it rejects) ------------------------ *)
-Definition P0 : sparams := {| sp_mps := 8; sp_desc := [(256, [18; 1; 0; 2])]; sp_T := 16; sp_naks := 6 |}.
+Definition P0 : sparams := {| sp_mps := 8; sp_desc := [(256, [18; 1; 0; 2])]; sp_T := 16; sp_naks := 6; sp_strict := true |}.
+Definition P0w : sparams := {| sp_mps := 8; sp_desc := [(256, [18; 1; 0; 2])]; sp_T := 16; sp_naks := 6; sp_strict := false |}.
 (* cycle builders: device inputs rx_active + 2 rx_valid + 4 rx_data + 1024 tx_ready; outputs tx_valid + 2 tx_data *)
 Definition host_pkt (bs : list N) : list (N * N) :=
   (1 + 1024, 0) :: map (fun b => (1 + 2 + 4 * b + 1024, 0)) bs ++ [(1024, 0)].
@@ -81,6 +82,14 @@ Proof. vm_compute. discriminate. Qed.
 Example C57_vendor_out_silence_rejected :
   first_bad (c57_mon P0) 0 (s_enc s_init) (vendor_out ++ idle 40) = Some (N.of_nat (length vendor_out) + 12).
 Proof. vm_compute. reflexivity. Qed.
+
+(* the weak reading (sp_strict = false) tolerates the silence, but then insists on the STALL at the status stage *)
+Example C57_weak_silence_then_status_stall_accepted :
+  first_bad (c57_mon P0w) 0 (s_enc s_init) (vendor_out ++ idle 20 ++ host_pkt in_tok ++ idle 3 ++ dev_pkt [30] ++ idle 20) = None.
+Proof. vm_compute. reflexivity. Qed.
+Example C57_weak_silence_then_status_zlp_rejected :
+  first_bad (c57_mon P0w) 0 (s_enc s_init) (vendor_out ++ idle 20 ++ host_pkt in_tok ++ idle 3 ++ dev_pkt (tx_wire 75 []) ++ idle 20) <> None.
+Proof. vm_compute. discriminate. Qed.
 
 (* GET_DESCRIPTOR(device), wLength 2: 80 06 00 01 00 00 02 00 -> DATA1 12 01, ACK, status OUT ZLP, ACK *)
 Definition get_desc : list (N * N) :=
